@@ -120,8 +120,9 @@ else:
     def _get_non_none_type(t: Any) -> Any:
         """Extract the non-None type from Optional[T]."""
         if _is_optional(t):
-            args = get_args(t)
-            return next(arg for arg in args if arg is not type(None))
+            args = tuple(arg for arg in get_args(t) if arg is not type(None))
+            # Optional[Union[int, str]] must stay a union, not collapse to int
+            return args[0] if len(args) == 1 else Union[args]
         return t
 
     def _resolve_type_alias(annotation, field_name=None, class_module=None):
@@ -264,6 +265,12 @@ else:
         if origin is Union:
             args = get_args(expected)
             non_none_args = [arg for arg in args if arg is not type(None)]
+
+            # An exact type match wins, as in Pydantic's smart-union mode:
+            # "7" stays a string when str is itself a member of the union
+            for union_type in non_none_args:
+                if inspect.isclass(union_type) and type(value) is union_type:
+                    return value
 
             # Try each type in the union
             validation_errors = []
